@@ -172,12 +172,11 @@ theorem ref_loadWalletV4 : Ref (loadWalletV4 : SOp R (WalletV4 R)) dWalletV4 := 
   exact Ref.bind (ref_loadUint 32 (by omega)) fun _ => Ref.bind (ref_loadUint 32 (by omega)) fun _ =>
     Ref.bind (ref_loadBytes 32 (by omega)) fun _ => Ref.bind ref_loadMaybeRef fun _ => Ref.ret _
 
-/-- what `HighloadWalletData.serialize` writes: the value with `old_queries` emptied (F23) -/
-theorem appends_highloadB (w : Highload R) : Appends (highloadB w) (encHighload { w with oldQueries := none }) := by
+theorem appends_highloadB (w : Highload R) : Appends (highloadB w) (encHighload w) := by
   unfold highloadB encHighload storeDict
   rw [← Enc.cat_assoc, ← Enc.cat_assoc]
   exact (((appends_storeUint _ 32 (by omega)).andThen (appends_storeUint _ 64 (by omega))).andThen
-    (appends_storeBytesN 32 _)).andThen (appends_storeMaybeRef none)
+    (appends_storeBytesN 32 _)).andThen (appends_storeMaybeRef _)
 
 theorem rt_highload (w : Highload R) : RT (encHighload w) dHighload w := by
   unfold encHighload dHighload
@@ -386,6 +385,17 @@ theorem rt_walletMsg (ops : CellOps R) (hl : ops.Lawful) (w : WalletMsg R) (hwf 
       RT.const (by intro ch; simp [hdec])
     have := RT.bind (rt_ref c) (f := fun r => (fun ch => (decodeMessage ops r).map (fun m => ((⟨w.sendMode, m⟩ : WalletMsg R), ch)) : Dec R (WalletMsg R))) hc
     rwa [Enc.cat_eNil] at this
+
+theorem ref_loadWalletMsg (ops : CellOps R) : Ref (loadWalletMsg ops) (dWalletMsg ops) := by
+  unfold loadWalletMsg dWalletMsg
+  refine Ref.bind (ref_loadUint 8 (by omega)) fun mode => Ref.bind ref_loadRef fun r => ?_
+  intro b rr a c' hh
+  rcases hd : decodeMessage ops r with _ | m
+  · simp [hd] at hh
+  · simp only [hd, Option.map_some, Option.some.injEq, Prod.mk.injEq] at hh
+    obtain ⟨rfl, rfl⟩ := hh
+    have := own_parser ops r m hd
+    simp [sop_bind_eq, SOp.bind, ofOption, this, sop_pure_eq, SOp.pure]
 
 /-! ### values in range have an encoding -/
 
